@@ -25,8 +25,8 @@ def shards(tier, seed):
         out.append({"name": "note-" + L, "kind": "note", "letter": L,
                     "acc": 3, "octaves": [0, 1, 4, 8] if tier == "quick" else list(range(10)),
                     "weight": 4})
-    n = 300 if tier == "quick" else 5000
-    parts = 4 if tier == "quick" else 16
+    n = 1600 if tier == "quick" else 8000
+    parts = 8 if tier == "quick" else 16
     for i in range(parts):
         out.append({"name": "tracks-%d" % i, "kind": "tracks", "n": n // parts, "weight": 6})
     out.append({"name": "octaves", "kind": "octave", "weight": 1})
